@@ -20,6 +20,7 @@ import DeapModel.Lemmas.C07Ovf
 import DeapModel.Lemmas.C07QSel
 import DeapModel.Lemmas.C07E2E
 import DeapModel.Lemmas.C07E2EN
+import DeapModel.Lemmas.C07Gen
 
 set_option linter.unusedSectionVars false
 set_option linter.unusedVariables false
